@@ -1,3 +1,4 @@
+#include <algorithm>
 // c02_extra.hpp — two small tree-shape sub-checks for igris::vector (vector.h and the std_portable.h twin):
 //  * floating-point comparison: ==, !=, < on vector<double|float> over {+0.0, -0.0, NaN, 1.0}, all pairs of
 //    sequences of length <= 3, against std::vector (equality of values is not equality of bytes);
@@ -124,8 +125,13 @@ namespace c02
                               name(sb).c_str(), (int)(A == B), (int)(A != B), (int)(ma == mb), (int)(ma != mb));
                 return;
             }
+            // std::vector's operator< itself depends on the language mode when elements are unordered (NaN): up to C++17 it is
+            // lexicographical_compare over operator<, from C++20 it is synthesised from operator<=> (an unordered pair makes the
+            // whole comparison false).  The statement says "as std::vector" without a language mode, so either answer is accepted;
+            // for ordered elements the two definitions coincide.
             if constexpr (Tr::has_less)
-                if ((A < B) != (ma < mb) || (B < A) != (mb < ma))
+                if (((A < B) != (ma < mb) && (A < B) != std::lexicographical_compare(ma.begin(), ma.end(), mb.begin(), mb.end())) ||
+                    ((B < A) != (mb < ma) && (B < A) != std::lexicographical_compare(mb.begin(), mb.end(), ma.begin(), ma.end())))
                 {
                     mc::violation(mc::fmt("C02.%s.compare.less", variant.c_str()), "A=%s B=%s: A<B is %d, B<A is %d; std::vector: %d, %d", name(seqs[ai]).c_str(), name(sb).c_str(),
                                   (int)(A < B), (int)(B < A), (int)(ma < mb), (int)(mb < ma));
